@@ -627,14 +627,16 @@ def minimize_lbfgsb(
                     np.copy(x),
                     OptimizeResult(
                         fun=f0,
-                        jac=grad,
+                        # the state owns its arrays: a callback writing into them must
+                        # not change the iterate and gradient the solver works with
+                        jac=np.copy(grad),
                         nfev=sf.nfev,
                         njev=sf.ngev,
                         # the iteration is completed, the counter is incremented below
                         nit=istate.nit + 1,
                         status=istate.warnflag,
                         message=istate.task_str,
-                        x=x,
+                        x=np.copy(x),
                         success=istate.is_success,
                         hess_inv=LbfgsInvHessProduct(
                             np.atleast_2d(np.diff(np.array(X), axis=0)),
